@@ -825,7 +825,7 @@ Proof. intros H ->. exact H. Qed.
 Lemma do_send_WI (w : world) (o : oentry) :
   WI w -> (o_topic o = TDelete -> del_ready (w_recs w) (o_run o)) -> entry_at (w_hist w) o -> WI (do_send w o).
 Proof.
-  intros [H1 H2 H3 H4 H5 H6 H7 H8 H9 H10 H11] Hd (x & Hx & Ex & _). unfold do_send. constructor; cbn; try assumption.
+  intros [H1 H2 H3 H4 H5 H6 H7 H8 H9 H10 H11 H12] Hd (x & Hx & Ex & _). unfold do_send. constructor; cbn; try assumption.
   - intros e He Ht. apply in_app_or in He as [He|[<-|[]]]; [apply H4; assumption|]. cbn in Ht. apply Hd, Ht.
   - intros p idx e d Hin. destruct (H6 p idx e d Hin) as [A B]. split; [apply in_or_app; left; exact A|exact B].
   - intros e He. apply in_app_or in He as [He|[<-|[]]]; [apply H9, He|].
@@ -837,13 +837,16 @@ Lemma del_outbox_WI (w : world) (id : N) :
   WI w -> (forall r, nth_error (w_hist w) (N.to_nat id - 1) = Some r -> published w r) ->
   WI (set_outbox w (filter (fun o => negb (N.eqb (o_id o) id)) (w_outbox w))).
 Proof.
-  intros [H1 H2 H3 H4 H5 H6 H7 H8 H9 H10 H11] Hp. constructor; cbn; try assumption.
+  intros [H1 H2 H3 H4 H5 H6 H7 H8 H9 H10 H11 H12] Hp. constructor; cbn; try assumption.
   - intros o Ho Ht. apply filter_In in Ho as [Ho _]. apply H5; assumption.
   - intros o Ho. apply filter_In in Ho as [Ho _]. apply H8, Ho.
   - intros k r Hk. destruct (H10 k r Hk) as [A|A]; [|right; exact A].
     destruct (N.eq_dec (N.of_nat k + 1) id) as [E|E].
     + right. apply Hp. rewrite <- E. replace (N.to_nat (N.of_nat k + 1) - 1)%nat with k by lia. exact Hk.
     + left. apply filter_In. split; [exact A|]. cbn. apply Bool.negb_true_iff. now apply N.eqb_neq.
+  - clear -H12. induction (w_outbox w) as [|a l IH]; cbn; [constructor|]. inversion H12 as [|x xs Hn Hl]; subst.
+    destruct (negb (N.eqb (o_id a) id)); cbn; [|apply IH, Hl]. constructor; [|apply IH, Hl].
+    intros Hin. apply Hn. apply in_map_iff in Hin as (o & Ho1 & Ho2). apply filter_In in Ho2 as [Ho2 _]. rewrite <- Ho1. apply in_map, Ho2.
 Qed.
 
 Lemma p_send_t (K : world -> Prop) (o : oentry) :
@@ -952,7 +955,7 @@ Qed.
 (* ---------- trigger.go, callback.go, the controller API ---------- *)
 Lemma set_nrun_WI (w : world) : WI w -> WI (set_nrun w (w_nrun w + 1)%N).
 Proof.
-  intros [H1 H2 H3 H4 H5 H6 H7 H8 H9 H10 H11]. constructor; cbn; try assumption.
+  intros [H1 H2 H3 H4 H5 H6 H7 H8 H9 H10 H11 H12]. constructor; cbn; try assumption.
   intros r Hr. specialize (H2 r Hr). lia.
 Qed.
 
@@ -1423,7 +1426,7 @@ Lemma WI_procs (w w' : world) :
   w_recs w' = w_recs w -> w_nrun w' = w_nrun w -> w_now w' = w_now w -> w_log w' = w_log w -> w_outbox w' = w_outbox w ->
   (forall x, In x (w_procs w') -> In x (w_procs w)) -> w_hist w' = w_hist w -> w_noid w' = w_noid w -> WI w -> WI w'.
 Proof.
-  intros E1 E2 E3 E4 E5 Hsub E7 E8 [H1 H2 H3 H4 H5 H6 H7 H8 H9 H10 H11].
+  intros E1 E2 E3 E4 E5 Hsub E7 E8 [H1 H2 H3 H4 H5 H6 H7 H8 H9 H10 H11 H12].
   constructor; unfold published in *; rewrite ?E1, ?E2, ?E3, ?E4, ?E5, ?E7, ?E8; try assumption.
   intros p idx e d Hin. apply (H6 p idx e d), Hsub, Hin.
 Qed.
@@ -1437,7 +1440,7 @@ Qed.
 Lemma put_pstate_WI (w : world) (inst : Z) (u : eunit) (ps : pstate) :
   WI w -> (forall idx e d, ps = PLag idx e d -> ev_ok w u e) -> WI (put_pstate w (inst, u) ps).
 Proof.
-  intros [H1 H2 H3 H4 H5 H6 H7 H8 H9 H10 H11] Hps. unfold put_pstate. constructor; cbn; try assumption.
+  intros [H1 H2 H3 H4 H5 H6 H7 H8 H9 H10 H11 H12] Hps. unfold put_pstate. constructor; cbn; try assumption.
   intros p idx e d [Hx|Hx].
   - inversion Hx; subst. cbn. apply (Hps idx e d eq_refl).
   - apply filter_In in Hx as [Hx _]. apply (H6 p idx e d Hx).
@@ -1463,7 +1466,7 @@ Proof.
     destruct ui; [|exact B]. clear -B. induction B as [|x l Hx Hl IH]; cbn; [constructor|].
     constructor; [|exact IH]. destruct x; try exact Hx; reflexivity.
   - (* clock advance *)
-    split; [|constructor]. destruct HW as [H1 H2 H3 H4 H5 H6 H7 H8 H9 H10 H11]. constructor; cbn; try assumption.
+    split; [|constructor]. destruct HW as [H1 H2 H3 H4 H5 H6 H7 H8 H9 H10 H11 H12]. constructor; cbn; try assumption.
     intros r Hr. destruct (H3 r Hr) as (A & B & C & D). repeat split; try assumption. lia.
   - (* a process step *)
     set (ps := get_pstate w (inst, u)).
@@ -1486,7 +1489,7 @@ Proof.
   - split; [|constructor]. eapply WI_frame; try exact HW; reflexivity.
   - (* a duplicated delivery *)
     destruct (nth_error (w_log w) idx) as [e|] eqn:E; cbn [fst snd]; (split; [|constructor]); [|exact HW].
-    apply nth_error_In in E. destruct HW as [H1 H2 H3 H4 H5 H6 H7 H8 H9 H10 H11]. constructor; cbn; try assumption.
+    apply nth_error_In in E. destruct HW as [H1 H2 H3 H4 H5 H6 H7 H8 H9 H10 H11 H12]. constructor; cbn; try assumption.
     + intros e' He' Ht. apply in_app_or in He' as [He'|[<-|[]]]; [apply H4; assumption|]. cbn in *. apply (H4 e E Ht).
     + intros p i' e' d' Hin. destruct (H6 p i' e' d' Hin) as [A B]. split; [apply in_or_app; left; exact A|exact B].
     + intros e' He'. apply in_app_or in He' as [He'|[<-|[]]]; [apply H9, He'|]. destruct (H9 e E) as (r & Hr & Er). exists r. split; [exact Hr|exact Er].
